@@ -503,9 +503,10 @@ const (
 	TwBadBody   Twist = "bad-payload"       // payload columns carry malformed documents
 	TwHugeValue Twist = "huge-value"        // numeric columns carry extreme values
 	TwFewCols   Twist = "fewer-columns"     // the result has one column less than scanned
+	TwCycle     Twist = "cyclic-tree"       // a stored call tree with a parent/child cycle, a self-parent, repeated node ids; other kinds: every row twice
 )
 
-var Twists = []Twist{TwStrForNum, TwNull, TwWrongType, TwFp0, TwTsOutside, TwShortID, TwBadBody, TwHugeValue, TwFewCols}
+var Twists = []Twist{TwStrForNum, TwNull, TwWrongType, TwFp0, TwTsOutside, TwShortID, TwBadBody, TwHugeValue, TwFewCols, TwCycle}
 
 var badPayloads = []string{"", "{", "{}", "[]", "null", `{"name":1,"tags":[1],"localEndpoint":"x","annotations":{"a":1}}`, `{"attributes":[1]}`, `{"attributes":[{"key":"service.name","value":3}]}`,
 	`{"attributes":[{"key":"a"}],"events":[{"timeUnixNano":"1"}]}`, `{"traceId":5}`, `{"traceId":"!!"}`, "\x0a\x03abc\xff\xff\xff", "\x00", `{"events":[1,2]}`, `{"attributes":[{"key":"a","value":{"stringValue":1}}]}`,
@@ -612,6 +613,32 @@ func ApplyTwist(k Kind, tw Twist, r *rand.Rand, rows [][]driver.Value) ([]string
 				}
 			}
 		})
+	case TwCycle:
+		j := pick("tree")
+		if j < 0 {
+			rows = append(rows, rows...)
+			break
+		}
+		node := func(parent, fn, id uint64) []interface{} {
+			return []interface{}{parent, fn, id, int64(1), int64(2)}
+		}
+		for i := range rows {
+			t, ok := rows[i][j].([][]interface{})
+			if !ok {
+				continue
+			}
+			switch r.Intn(4) {
+			case 0: // root -> 1 -> 2 -> 1
+				t = append(t, node(1, 2, 2), node(2, 3, 1))
+			case 1: // a node that is its own parent, reachable from the root
+				t = append(t, node(1, 1, 1), node(2, 2, 2))
+			case 2: // a longer cycle below the root
+				t = append(t, node(1, 2, 70), node(70, 3, 71), node(71, 2, 72), node(72, 3, 70))
+			case 3: // the root is its own child; the same node id under two parents
+				t = append(t, node(1, 1, 0), node(2, 3, 3), node(3, 3, 2))
+			}
+			rows[i][j] = t
+		}
 	case TwBadBody:
 		someRows(func(row []driver.Value) {
 			for j, c := range spec {
